@@ -44,9 +44,9 @@ def setup_worker():
     sigint.enable_monitoring()
 
 
-KINDS_READ = ['io', 'eof', 'foreign', 'value', 'kbd', 'baseexc', 'badbool', 'truthy', 'broken', 'epipe', 'timeout', 'oserr',
+KINDS_READ = ['io', 'eof', 'eofsub', 'eofsub', 'foreign', 'value', 'kbd', 'baseexc', 'badbool', 'truthy', 'broken', 'epipe', 'timeout', 'oserr',
               'runtime', 'memerr', 'stopiter']
-KINDS_WRITE = ['io', 'eof', 'foreign', 'value', 'kbd', 'baseexc', 'broken', 'epipe', 'timeout', 'oserr', 'runtime', 'memerr',
+KINDS_WRITE = ['io', 'eof', 'eofsub', 'foreign', 'value', 'kbd', 'baseexc', 'broken', 'epipe', 'timeout', 'oserr', 'runtime', 'memerr',
                'stopiter']
 
 
